@@ -237,8 +237,8 @@ def _stems_strategy(tier):
 
 
 LABELS_PRE = ["", "www.", "m.", "mobile.", "amp.", "www2.", "fr.", "fr-fr.", "FR-FR.", "pt-BR.", "xx.", "en.", "wwww.", "forum-m.", "amp-", "www.fr.", "fr.www.", "fr.amp-",
-              "m.fr-ca.", "xn--9ca.", "é."]
-LABELS_BASE = ["facebook.com", "example.co.uk", "lemonde.fr", "EXAMPLE.Com", "co.uk", "com", "x.kawasaki.jp", "a.x.kawasaki.jp", "me.blogspot.com", "xn--9ca.fr", "é.fr",
+              "m.fr-ca.", "xn--9ca.", "é.", "amp-www.", "amp-m.", "amp-amp.", "www.amp-", "amp-fr.", "amp-www2.fr."]
+LABELS_BASE = ["mobile.de", "m.fr", "amp.dev", "www.ck", "facebook.com", "example.co.uk", "lemonde.fr", "EXAMPLE.Com", "co.uk", "com", "x.kawasaki.jp", "a.x.kawasaki.jp", "me.blogspot.com", "xn--9ca.fr", "é.fr",
                "site.unknowntld", "münchen.de", "straße.de", "fußball.example.co.uk", "ΟΔΌΣ.gr", "ελληνικός.gr", "İstanbul.com"]
 
 
